@@ -91,7 +91,12 @@ func runBounded(prop, tmplPath, workDir string) boundedResult {
 	t0 := time.Now()
 	cmd := exec.CommandContext(ctx, "go", "test", "-tags", "verif", "-overlay", ovFile, "-v", "-vet=off", "-count=1", "-timeout", "1500s", "-run", "^(TestGovcBounded|TestGovcReplay)$", "./"+res.Pkg+"/")
 	cmd.Dir = root
-	cmd.Env = append(os.Environ(), "GOFLAGS=-mod=mod", "GOPROXY=off", "GOSUMDB=off", "GOTOOLCHAIN=local", "VERIF_TIER="+boundedTier)
+	// the code under test logs through glog, which writes one file per test binary into the temporary directory:
+	// give the run a temporary directory of its own and remove it afterwards
+	tmp := filepath.Join(workDir, "tmp."+base)
+	os.MkdirAll(tmp, 0o755)
+	defer os.RemoveAll(tmp)
+	cmd.Env = append(os.Environ(), "GOFLAGS=-mod=mod", "GOPROXY=off", "GOSUMDB=off", "GOTOOLCHAIN=local", "VERIF_TIER="+boundedTier, "TMPDIR="+tmp)
 	b, _ := cmd.CombinedOutput()
 	res.Seconds = time.Since(t0).Seconds()
 	res.Output = string(b)
